@@ -23,7 +23,7 @@ Template directives (see DESIGN.md 3.2/3.3):
   hint <where>:
       verus statements
   @*/
-  where <where> is one of: start | end | loop K before | loop K start | loop K end | loop K after | before `text` [#n] | after `text` [#n]
+  where <where> is one of: start | end | loop K before | loop K start | loop K end | loop K after | before `text` [#n|#*] | after `text` [#n|#*]   (#* = every occurrence, at least one)
 
   /*@fnrange FILE :: IMPL-HEADER-or-"-" :: NAME          a contiguous range of top-level statements of fn NAME
   from: `text the first statement of the range starts with`
@@ -561,9 +561,25 @@ def apply_hints(body, hints):
             else:
                 ins.append((ob + 1, '\n' + text + '\n') if m.group(2) == 'start' else (cb, '\n' + text + '\n'))
         else:
-            m = re.match(r'(before|after)\s+`(.*)`(?:\s+#(\d+))?$', where, re.S)
+            m = re.match(r'(before|after)\s+`(.*)`(?:\s+#(\d+|\*))?$', where, re.S)
             if not m:
                 raise SystemExit('template error: bad hint anchor: ' + where)
+            if m.group(3) == '*':
+                # EVERY occurrence (at least one): an obligation stated at each exit of a kind, so that an exit
+                # added later carries it too
+                k = 1
+                while True:
+                    try:
+                        idx = nth_occurrence(body, m.group(2), k, m.group(1))
+                    except LostAnchor:
+                        if k == 1:
+                            raise
+                        break
+                    if m.group(1) == 'after':
+                        idx += len(m.group(2))
+                    ins.append((idx, '\n' + text + '\n'))
+                    k += 1
+                continue
             idx = nth_occurrence(body, m.group(2), int(m.group(3) or 1), m.group(1))
             if m.group(1) == 'after':
                 idx += len(m.group(2))
